@@ -3,7 +3,7 @@
 import copy, json, os, random, shutil, sys, time
 sys.path.insert(0, os.path.dirname(os.path.abspath(__file__)))
 import vlib, ledger, scen
-import c14, c16
+import c07, c14, c16
 
 PID = "C01"
 
@@ -56,7 +56,8 @@ def main():
         mcres = mc(tier)
         K = 4 if tier == "quick" else 12
         chains = [tie_chain(seed, 0).doc(), c16.chain(seed, 2, tier).doc(), scen.rich_chain(seed, long=False).doc(),
-                  scen.mixed_chain(seed + 9, name="c01-mixed", blocks=8, pip10=11).doc()]
+                  scen.mixed_chain(seed + 9, name="c01-mixed", blocks=8, pip10=11).doc(),
+                  c07.chain("c01-avg", seed * 31 + 5, 11, 9, 4, "wide").doc()]
         if tier != "quick":
             chains += [tie_chain(seed, 1).doc(), c14.chain(seed, 2, tier).doc(), scen.legacy_chain(seed, name="c01-legacy", tip=30).doc()]
         docs, meta = [], {}
@@ -64,6 +65,9 @@ def main():
             for r in range(K):
                 x = copy.deepcopy(d)
                 x["name"] = "%s-r%d" % (d["name"], r)
+                if r % 2 == 1:
+                    # a different process history: the ledger may not depend on when the computing process was started
+                    x["control"] = dict(x.get("control") or {}, restarts=[h for h in range(5, x["tip"]) if (h + r // 2) % 3 == 0][:40])
                 docs.append((x["name"], x))
                 meta[x["name"]] = (d["name"], r)
         vh = vlib.go_build("vh", "vh")
@@ -107,7 +111,8 @@ def main():
             "states": mcres["states"], "transitions": mcres["transitions"], "traces_validated_against_impl": stats["traces"],
             "evaluations": len(results), "distinct_nontrivial": len(by),
             "rule": "each chain (staking payout above the cap with five exactly equal largest stakes; legacy bank with tied PEG requests; the structurally rich "
-                    "chain; random traffic with PIP-10) is replayed by K independent daemon processes (fresh hash seeds, GOMAXPROCS 1/2/4/16); the canonical dumps of "
+                    "chain; random traffic with PIP-10; conversions around unrated blocks with PIP-10) is replayed by K independent daemon processes (fresh hash seeds, "
+                    "GOMAXPROCS 1/2/4/16; every second one is stopped and started again at every third height, so the process that computed a block differs); the canonical dumps of "
                     "all ledger tables (row ids and pn_sync_version.unix_timestamp excluded) must be identical; K=4 quick / 12 thorough, so a two-way order "
                     "dependence is missed with probability 2^-(K-1) per chain. MC_Determinism exhausts all stake vectors with independent tie orders.",
             "samples": [{"chain": c, "replicas": len(rs), "tables": sorted(rs[0].last.get("dump", {}))[:5]} for c, rs in list(by.items())[:3]],
